@@ -92,7 +92,9 @@ def norm(kind, expected, val):
         return {'unexpected': type(val).__name__}
     if kind == 'AddrInt':
         if isinstance(val, Address):
-            return {'addr': {'wc': val.wc, 'hash': list(val.hash_part)}}
+            ac = getattr(val, 'anycast', None)
+            return {'addr': {'wc': val.wc, 'hash': list(val.hash_part),
+                             'any': [] if ac is None else [{'len': ac.depth, 'v': big(ac.rewrite_pfx)}]}}
         return {'unexpected': type(val).__name__}
     if kind == 'AddrExt':
         if isinstance(val, ExternalAddress):
